@@ -46,6 +46,7 @@ type c02Step struct {
 }
 
 type c02Req struct {
+	outerMw  bool // an outer middleware set X-Mw before the route's chain ran
 	id       int
 	steps    []c02Step
 	cancelAt time.Duration // 0: no client cancellation
@@ -95,6 +96,8 @@ func c02Run(r *zsim.Run) {
 				zsim.Sleep(st.d)
 			case 1:
 				w.Header().Set("X-Out", st.data)
+			case 5:
+				w.Header().Set("X-Mw", st.data) // a header an outer middleware has set already
 			case 2:
 				rq.committed = true
 				w.WriteHeader(st.code)
@@ -145,6 +148,9 @@ func c02Run(r *zsim.Run) {
 						rq.steps = append(rq.steps, c02Step{kind: 0, d: d})
 					case 2:
 						rq.steps = append(rq.steps, c02Step{kind: 1, data: fmt.Sprintf("h%d-%d", rq.id, s)})
+						if o.Intn(3) == 0 {
+							rq.steps = append(rq.steps, c02Step{kind: 5, data: fmt.Sprintf("mw%d-%d", rq.id, s)})
+						}
 					case 3:
 						rq.steps = append(rq.steps, c02Step{kind: 2, code: zsim.Pick(o, 201, 200, 404, 418, 500)})
 					case 4:
@@ -170,6 +176,12 @@ func c02Run(r *zsim.Run) {
 				}
 				req := httptest.NewRequest(http.MethodPost, "http://sim/work", bytes.NewReader(body))
 				req.Header.Set("X-Req", fmt.Sprint(rq.id))
+				if up := zsim.Pick(o, "", "", "", "h2c", "TLS/1.0"); up != "" {
+					// an upgrade offer other than websocket: the request is served as an ordinary one
+					req.Header.Set("Upgrade", up)
+					req.Header.Set("Connection", "Upgrade")
+				}
+				rq.outerMw = o.Intn(2) == 0
 				var cancelled time.Duration = -1
 				if rq.cancelAt > 0 {
 					ctx, cancel := context.WithCancel(req.Context())
@@ -178,6 +190,10 @@ func c02Run(r *zsim.Run) {
 					r.Go("cancel", func() { zsim.Sleep(at); cancelled = r.Now(); cancel() })
 				}
 				rec := httptest.NewRecorder()
+				if rq.outerMw {
+					// what a middleware outside the route's chain (CORS, tracing) does before it calls the router
+					rec.Header().Set("X-Mw", "outer")
+				}
 				t0 := r.Now()
 				var panicked any
 				func() {
@@ -233,12 +249,19 @@ func c02Judge(r *zsim.Run, rq *c02Req, rec *httptest.ResponseRecorder, panicked 
 	handlerDone := rq.finished && rq.finishAt <= t1
 	// expected content if the handler's output is delivered
 	status, hdr, out := http.StatusOK, "", ""
+	var mw []string
+	if rq.outerMw {
+		mw = []string{"outer"}
+	}
+	outerOnly := strings.Join(mw, ",")
 	wrote := false
 	for _, st := range rq.steps {
 		if st.kind == 4 {
 			break
 		}
 		switch st.kind {
+		case 5:
+			mw = []string{st.data}
 		case 1:
 			hdr = st.data
 		case 2:
@@ -256,6 +279,10 @@ func c02Judge(r *zsim.Run, rq *c02Req, rec *httptest.ResponseRecorder, panicked 
 			r.Failf("response-differs-from-handler", "request %d: the handler finished in time with status %d header %q body %q but the client received %d %q %q", rq.id, status, hdr, out, rec.Code, rec.Header().Get("X-Out"), body)
 			return false
 		}
+		if got := strings.Join(rec.Header()["X-Mw"], ","); got != strings.Join(mw, ",") {
+			r.Failf("response-differs-from-handler", "request %d: header X-Mw (set by an outer middleware: %v, then by the handler) should reach the client as %v, it received %v", rq.id, rq.outerMw, mw, rec.Header()["X-Mw"])
+			return false
+		}
 	case handlerDone && rq.panicked && (t1-t0 < timeout) && !clientGone:
 		r.NonTrivial()
 		r.Probe("handler_panicked")
@@ -267,7 +294,7 @@ func c02Judge(r *zsim.Run, rq *c02Req, rec *httptest.ResponseRecorder, panicked 
 		// the deadline (or the client's cancellation) came first: timeout response, none of the handler's bytes
 		r.NonTrivial()
 		r.Probe("deadline_first")
-		if strings.Contains(body, "<m") || rec.Header().Get("X-Out") != "" {
+		if strings.Contains(body, "<m") || rec.Header().Get("X-Out") != "" || strings.Join(rec.Header()["X-Mw"], ",") != outerOnly {
 			if handlerDone && t1-t0 >= timeout {
 				// finished at the very instant of the deadline: either response is acceptable
 				return true
